@@ -2782,3 +2782,12 @@ mod tests {
         }
     }
 }
+
+/// verification hook (add-only): exposes the crate-private `query::compare_owned_values`
+#[cfg(kahflane_turdb_verif)]
+pub fn verif_compare_owned_values(
+    a: &crate::types::OwnedValue,
+    b: &crate::types::OwnedValue,
+) -> std::cmp::Ordering {
+    query::compare_owned_values(a, b)
+}
